@@ -16,6 +16,58 @@ pub struct Case {
     pub xf: Xf,
     /// false: fill(path); true: push_clip(path) then fill the surface
     pub as_clip: bool,
+    /// PathBuilder::arc(cx, cy, r, start, sweep) calls made on the same builder just before op `index` of
+    /// `path.ops` (index == ops.len(): at the end)
+    #[serde(default)]
+    pub arcs: Vec<(u32, [f32; 5])>,
+}
+
+/// the path as the caller builds it: one PathBuilder, arcs through PathBuilder::arc
+pub fn build_real(c: &Case) -> Path {
+    let mut pb = PathBuilder::new();
+    for i in 0..=c.path.ops.len() {
+        for (at, a) in &c.arcs {
+            if *at as usize == i {
+                pb.arc(a[0], a[1], a[2], a[3], a[4]);
+            }
+        }
+        if let Some(op) = c.path.ops.get(i) {
+            match *op {
+                POp::M(x, y) => pb.move_to(x, y),
+                POp::L(x, y) => pb.line_to(x, y),
+                POp::Q(a, b, x, y) => pb.quad_to(a, b, x, y),
+                POp::C(a, b, cc, d, x, y) => pb.cubic_to(a, b, cc, d, x, y),
+                POp::Z => pb.close(),
+            }
+        }
+    }
+    let mut p = pb.finish();
+    p.winding = if c.path.evenodd { Winding::EvenOdd } else { Winding::NonZero };
+    p
+}
+
+/// the path the statement describes: an arc is a straight line from the current point to the arc's starting
+/// point followed by the true circular arc (f64, sampled every quarter of a device-independent unit at most),
+/// a sweep beyond a full turn being one full circle
+pub fn model_path(c: &Case) -> PathSpec {
+    let mut ops: Vec<POp> = Vec::new();
+    for i in 0..=c.path.ops.len() {
+        for (at, a) in &c.arcs {
+            if *at as usize == i {
+                let (cx, cy, r, a0) = (a[0] as f64, a[1] as f64, a[2] as f64, a[3] as f64);
+                let sweep = (a[4] as f64).clamp(-2.0 * std::f64::consts::PI, 2.0 * std::f64::consts::PI);
+                let n = ((sweep.abs() * 64.0).ceil() as usize).max(1);
+                for k in 0..=n {
+                    let t = a0 + sweep * k as f64 / n as f64;
+                    ops.push(POp::L((cx + r * t.cos()) as f32, (cy + r * t.sin()) as f32));
+                }
+            }
+        }
+        if let Some(op) = c.path.ops.get(i) {
+            ops.push(*op);
+        }
+    }
+    PathSpec { ops, evenodd: c.path.evenodd }
 }
 
 /// margin of the statement (1 px) plus the pixel's half diagonal: the whole pixel is more than 1 px from the outline
@@ -26,9 +78,9 @@ pub fn render(c: &Case) -> Vec<u32> {
     let white = Source::Solid(SolidSource { r: 255, g: 255, b: 255, a: 255 });
     // (C10's harmless preludes, e.g. an unrelated clip path pushed and popped: their path state must not reach
     // the path under test, which may well begin without a move_to)
-    harmless_prelude(&mut dt, (c.w * 7 + c.h * 13 + c.path.ops.len() as i32 * 5) as u32 % 12);
+    harmless_prelude(&mut dt, (c.w * 7 + c.h * 13 + (c.path.ops.len() + c.arcs.len()) as i32 * 5) as u32 % 12);
     dt.set_transform(&to_transform(&c.xf));
-    let p = c.path.build();
+    let p = build_real(c);
     if c.as_clip {
         dt.push_clip(&p);
         dt.set_transform(&Transform::identity());
@@ -42,7 +94,8 @@ pub fn render(c: &Case) -> Vec<u32> {
 
 pub fn check(c: &Case) -> CheckResult {
     let got = render(c);
-    let subs = walk(&c.path, &c.xf);
+    let model = model_path(c);
+    let subs = walk(&model, &c.xf);
     let polys = fine(&subs, 0.08);
     let cls = classify_pixels(&polys, c.w, c.h, MARGIN + 0.5);
     let mut o = Outcome::new();
@@ -85,21 +138,24 @@ pub fn check(c: &Case) -> CheckResult {
             }
         }
     }
-    let curves = c.path.has_curves();
+    let curves = c.path.has_curves() || !c.arcs.is_empty();
     o.nontrivial = curves && ins > 0 && outs > 0;
+    o.class_if(!c.arcs.is_empty(), "arc");
+    o.class_if(c.arcs.iter().any(|(at, _)| *at > 0 && matches!(c.path.ops.get(*at as usize - 1), Some(POp::Z))), "arc-directly-after-close");
+    o.class_if(c.arcs.iter().any(|(at, _)| *at == 0), "arc-first");
     o.class_if(curves, "has-curve");
     o.class_if(c.as_clip, "as-clip-path");
     o.class_if(c.path.evenodd, "evenodd");
     o.class(classify_xf(&c.xf));
     let mut after_close = false;
-    for w in c.path.ops.windows(2) {
+    for w in model.ops.windows(2) {
         if matches!(w[0], POp::Z) && !matches!(w[1], POp::M(..) | POp::Z) {
             after_close = true;
         }
     }
     o.class_if(after_close, "draw-after-close");
     o.class_if(matches!(c.path.ops.first(), Some(POp::Q(..) | POp::C(..))), "curve-first");
-    o.class_if(c.path.points().iter().any(|p| p.0.abs() > 200.0 || p.1.abs() > 200.0), "far-control-point");
+    o.class_if(model.points().iter().any(|p| p.0.abs() > 200.0 || p.1.abs() > 200.0), "far-control-point");
     // non-monotonic-in-y quad
     let mut nonmono = false;
     for s in &subs {
@@ -127,13 +183,14 @@ pub fn check(c: &Case) -> CheckResult {
     Ok(o)
 }
 
-fn arc_ops(cx: f32, cy: f32, r: f32, a0: f32, sweep: f32) -> Vec<POp> {
-    let mut pb = PathBuilder::new();
-    pb.arc(cx, cy, r, a0, sweep);
-    PathSpec::from_path(&pb.finish()).ops
+/// an arc is carried through the generator as a marker op (NaN-tagged MoveTo is not used: a separate list is)
+#[derive(Clone, Debug)]
+enum SegOp {
+    P(POp),
+    A([f32; 5]),
 }
 
-pub fn path_strategy(ext: f32) -> BoxedStrategy<PathSpec> {
+pub fn path_strategy(ext: f32) -> BoxedStrategy<(PathSpec, Vec<(u32, [f32; 5])>)> {
     let near = move || coord(ext);
     let far = || prop_oneof![-1500.0f32..1500.0, Just(1500.0f32), Just(-1500.0f32)];
     // coordinate: mostly near, sometimes far (control points far outside the surface)
@@ -149,15 +206,15 @@ pub fn path_strategy(ext: f32) -> BoxedStrategy<PathSpec> {
             let farness = if f == 0 { 1 } else { 0 };
             let pt = move || (c(farness), c(farness));
             let seg = prop_oneof![
-                3 => pt().prop_map(|(x, y)| vec![POp::L(x, y)]),
-                4 => (pt(), pt()).prop_map(|((a, b), (x, y))| vec![POp::Q(a, b, x, y)]),
-                4 => (pt(), pt(), pt()).prop_map(|((a, b), (cc, d), (x, y))| vec![POp::C(a, b, cc, d, x, y)]),
-                1 => pt().prop_map(|(x, y)| vec![POp::M(x, y)]),
-                1 => Just(vec![POp::Z]),
-                1 => (near(), near(), 0.5f32..ext, -7.0f32..7.0, -7.0f32..7.0).prop_map(|(x, y, r, a, s)| arc_ops(x, y, r, a, s)),
+                3 => pt().prop_map(|(x, y)| SegOp::P(POp::L(x, y))),
+                4 => (pt(), pt()).prop_map(|((a, b), (x, y))| SegOp::P(POp::Q(a, b, x, y))),
+                4 => (pt(), pt(), pt()).prop_map(|((a, b), (cc, d), (x, y))| SegOp::P(POp::C(a, b, cc, d, x, y))),
+                1 => pt().prop_map(|(x, y)| SegOp::P(POp::M(x, y))),
+                2 => Just(SegOp::P(POp::Z)),
+                2 => (near(), near(), 0.5f32..ext, -7.0f32..7.0, -7.0f32..7.0).prop_map(|(x, y, r, a, s)| SegOp::A([x, y, r, a, s])),
                 // degenerate control polygons: cusp / coincident control points
-                1 => (pt(), pt()).prop_map(|((a, b), (x, y))| vec![POp::C(a, b, a, b, x, y)]),
-                1 => pt().prop_map(|(x, y)| vec![POp::Q(x, y, x, y)]),
+                1 => (pt(), pt()).prop_map(|((a, b), (x, y))| SegOp::P(POp::C(a, b, a, b, x, y))),
+                1 => pt().prop_map(|(x, y)| SegOp::P(POp::Q(x, y, x, y))),
             ];
             (prop::option::weighted(0.85, pt()), prop::collection::vec(seg, 2..=7), any::<bool>(), any::<bool>())
         })
@@ -166,8 +223,12 @@ pub fn path_strategy(ext: f32) -> BoxedStrategy<PathSpec> {
             if let Some((x, y)) = start {
                 ops.push(POp::M(x, y));
             }
+            let mut arcs: Vec<(u32, [f32; 5])> = Vec::new();
             for s in segs {
-                ops.extend(s);
+                match s {
+                    SegOp::P(op) => ops.push(op),
+                    SegOp::A(a) => arcs.push((ops.len() as u32, a)),
+                }
             }
             // exact coincidences that random floats never produce: a control point level with the curve's
             // start or end (horizontal end tangent: the monotonicity test's `ab == 0` branch), or with the same x
@@ -207,7 +268,7 @@ pub fn path_strategy(ext: f32) -> BoxedStrategy<PathSpec> {
             if close {
                 ops.push(POp::Z);
             }
-            PathSpec { ops, evenodd }
+            (PathSpec { ops, evenodd }, arcs)
         })
         .boxed()
 }
@@ -219,10 +280,12 @@ pub fn strategy() -> BoxedStrategy<Case> {
             let zoom = prop_oneof![12 => Just(1.0f32), 1 => Just(4096.0f32), 1 => Just(65536.0f32), 1 => Just(1.0f32 / 64.0)];
             (Just((w, h)), path_strategy(ext), prop_oneof![3 => Just(IDENT), 4 => xf_invertible(6.0)], prop::bool::weighted(0.3), zoom)
         })
-        .prop_map(|((w, h), path, xf, as_clip, zoom)| {
+        .prop_map(|((w, h), (path, arcs), xf, as_clip, zoom)| {
             // keep device-space geometry within the working range (+-4000 px)
             let mut xf = xf;
+            let mut arcs = arcs;
             let maxc = path.points().iter().fold(1.0f64, |m, p| m.max(p.0.abs() as f64).max(p.1.abs() as f64));
+            let maxc = arcs.iter().fold(maxc, |m, (_, a)| m.max((a[0].abs() + a[2]) as f64).max((a[1].abs() + a[2]) as f64));
             let norm = (xf[0].abs() + xf[2].abs()).max(xf[1].abs() + xf[3].abs()) as f64;
             if maxc * norm + 10.0 > 3900.0 {
                 let s = (3900.0 / (maxc * norm + 10.0)) as f32;
@@ -242,11 +305,16 @@ pub fn strategy() -> BoxedStrategy<Case> {
                         POp::Z => POp::Z,
                     };
                 }
+                for (_, a) in arcs.iter_mut() {
+                    a[0] /= zoom;
+                    a[1] /= zoom;
+                    a[2] /= zoom;
+                }
                 for v in xf.iter_mut().take(4) {
                     *v *= zoom;
                 }
             }
-            Case { w, h, path, xf, as_clip }
+            Case { w, h, path, xf, as_clip, arcs }
         })
         .boxed()
 }
@@ -255,9 +323,9 @@ pub fn property(_ctx: &Ctx) -> Property {
     Property {
         id: "C08",
         rule: "cases: paths of 2-8 ops mixing move/line/quad/cubic/arc/close in any order (curve first, directly after close, cusps, coincident control points, control points up to +-1500 units), both winding rules, identity / translation / rotation x scale / non-uniform scale / shear / mirror transforms (device geometry within +-4000 px), optionally with user space zoomed (units 4096 or 65536 times smaller, or 64 times larger, under a correspondingly scaled CTM), used as fill path or as clip path (in a third of the cases after an unrelated clip path was pushed and popped), white on transparent, 12..32 px surfaces. Oracle: f64 path walker with the statement's cursor rules, curves evaluated densely (<=0.08 px steps), winding number and distance to the outline per pixel centre; a pixel whose centre is more than 1 px + half a pixel diagonal from the outline must be exactly 0xffffffff when inside by the rule and exactly 0 when outside. Non-trivial: path with >=1 curve and >=1 judged-inside and >=1 judged-outside pixel; distinct by hash of the case.",
-        assumptions: vec!["pixels within 1.71 px of the outline are not judged (counted as undecided)", "arcs are judged as the quads PathBuilder::arc emitted (C20 owns arc-vs-circle)"],
+        assumptions: vec!["pixels within 1.71 px of the outline are not judged (counted as undecided)", "arcs are made with PathBuilder::arc on the same builder as the other ops and judged against the true circle (line to the starting point, then the circular arc; C20 bounds the radial error by 0.5 % of r, far inside the 1 px margin here)"],
         parts: vec![part("fill", 80_000, 1_500_000, strategy, check)],
-        min_class_fraction: vec![("fill", "has-curve", 0.8), ("fill", "as-clip-path", 0.15), ("fill", "draw-after-close", 0.05), ("fill", "non-monotonic-quad", 0.15), ("fill", "far-control-point", 0.05), ("fill", "curve-starts-above-row0", 0.1), ("fill", "control-point-level-with-endpoint", 0.1)],
+        min_class_fraction: vec![("fill", "has-curve", 0.8), ("fill", "as-clip-path", 0.15), ("fill", "draw-after-close", 0.05), ("fill", "non-monotonic-quad", 0.15), ("fill", "far-control-point", 0.05), ("fill", "curve-starts-above-row0", 0.1), ("fill", "control-point-level-with-endpoint", 0.1), ("fill", "arc", 0.2), ("fill", "arc-directly-after-close", 0.02)],
         panic_is_violation: false,
     }
 }
